@@ -131,7 +131,7 @@ def run(prog, rep, tier):
     for k, label in labels.items():
         r = found.get(k)
         if r is None:
-            rep.bad("GUARD." + k, fwhere(f), "no ValueError is raised exactly when `%s` (boundary-exact normal form); raise conditions found: %s" % (
+            rep.bad_form("GUARD." + k, fwhere(f), "no ValueError is raised exactly when `%s` (boundary-exact normal form); raise conditions found: %s" % (
                 label, ["; ".join(sorted(pred_fmt(p) for p in resolve(conj(x.path)))) for x in raises]))
         else:
             ok = r.order < first_draw and not r.loops
@@ -164,7 +164,7 @@ def run(prog, rep, tier):
             (any(is_tuple2(cond) and pol for cond, pol in ints[0].path) or want2 <= resolve(conj(ints[0].path))):
         rep.bad("SIZES.range", fwhere(f, ints[0].node), "range sizes deviate: " + why)
     elif not ints and not any(c.callkind == "method" and c.target in (".choice", ".random", ".uniform") and not c.loops for c in S.select("call", qname=Q)):
-        rep.bad("SIZES.range", fwhere(f), "a (lo, hi) request draws no sizes: no rng.integers call")
+        rep.bad_form("SIZES.range", fwhere(f), "a (lo, hi) request draws no sizes: no rng.integers call")
     else:
         sizes_unread = True
         rep.unk("SIZES.range", fwhere(f, ints[0].node if ints else None), "how the sizes are drawn for a (lo, hi) request is not in a form these rules read (%s)" % why)
